@@ -19,6 +19,7 @@ EXPLANATION = (
     " (R3, second half) what is stored in _old_ast is the replaced node or *its* own back-link, never read from the new node; (R6) type introspection sees inherited declarations; (R7) dictionary literals are typed whenever their keys can be dataclass fields (shared with C08/C10), otherwise calls reached through their fields are not normalised."
     " (R9/R10) whether a type is a sequence is decided from its bases, not from its element type, and the result of a nested collection operator derives from the call of the collection method on the stand-in stream (the nested lambda is followed whatever the item type)."
     " (R2, as of D49) the record of last resort carries the call normalised against the definition that was found; (R3, as of D51) the patch-back copies the whole argument list."
+    " (R13, as of D58) the collection class's operator is called without arguments only when the call site has no keyword either, and the search for a lambda among the arguments that decides full_type_resolution covers keyword values; (R14, as of D59) the refusal 'argument is required' is not reached for a *args / **kwargs parameter (R1's path count exempts exactly those paths)."
 )
 NOT_DECIDED = "agreement with inspect.Signature.bind as an executed oracle over all signatures and call shapes."
 
